@@ -729,16 +729,58 @@ def sfInt : ScalarFn :=
       | [.str s] => (match parseIntText s with | some i => .ok (.int i) | none => .ok .null)
       | _ => .ok .null }
 
-/-- the texts `strconv.ParseFloat` is modelled on: an optional sign and one to fifteen decimal digits (exact),
-and texts without any digit that cannot spell an infinity or a NaN (not a number: nil) -/
-def floatOfText (s : Bytes) : Except Stop Tree :=
+/-- a decimal float text as `strconv.ParseFloat` reads it: an optional sign, digits with an optional point (at
+least one digit), an optional exponent `e`/`E` with an optional sign and at least one digit, nothing else -/
+structure DecText where
+  neg : Bool
+  digits : Bytes
+  fracLen : Nat
+  exp : Int
+
+def parseDecText (s : Bytes) : Option DecText :=
   let signed := s.head? = some 45 || s.head? = some 43
-  let body := if signed then s.drop 1 else s
-  if !body.isEmpty && body.all isDigit && body.length ≤ 15 then
-    .ok (.flt (.fin (s.head? = some 45) (natOfDigits body) 0))
-  else if !s.any isDigit && !(body.head? = some 105 || body.head? = some 73 || body.head? = some 110 || body.head? = some 78) then
-    .ok .null
-  else .error .unmodelled
+  let r0 := if signed then s.drop 1 else s
+  let ip := spanP isDigit r0
+  let fp : Bytes × Bytes := match ip.2 with
+    | 46 :: r => spanP isDigit r
+    | r => ([], r)
+  let mant := ip.1 ++ fp.1
+  if mant.isEmpty then none
+  else match fp.2 with
+    | [] => some ⟨s.head? = some 45, mant, fp.1.length, 0⟩
+    | c :: r =>
+      if c = 101 || c = 69 then
+        let esigned := r.head? = some 45 || r.head? = some 43
+        let r1 := if esigned then r.drop 1 else r
+        let ep := spanP isDigit r1
+        if ep.1.isEmpty || !ep.2.isEmpty then none
+        else some ⟨s.head? = some 45, mant, fp.1.length,
+          if r.head? = some 45 then -(natOfDigits ep.1 : Int) else (natOfDigits ep.1 : Int)⟩
+      else none
+
+/-- `strconv.ParseFloat(s, 64)` as `float` uses it (an error gives nil): a decimal text is the binary64 nearest to
+its exact value (one rounding: `Flt.round` / `Flt.div` of exact operands; underflow gives ±0), a value beyond the
+largest float is an error (nil), a text that is not a decimal number is an error (nil). Outside the model: more
+than 40 digits or an exponent beyond ±400 (only to bound the arithmetic), and texts that may spell an infinity, a
+NaN, a hexadecimal float or use digit separators (any of the letters i n x p or an underscore). -/
+def floatOfText (s : Bytes) : Except Stop Tree :=
+  match parseDecText s with
+  | some d =>
+    if d.digits.length > 40 || d.exp.natAbs > 400 then .error .unmodelled
+    else
+      let D := natOfDigits d.digits
+      let x : Int := d.exp - (d.fracLen : Int)
+      let f : Flt :=
+        if D = 0 then .fin d.neg 0 0
+        else if x ≥ 0 then Flt.round d.neg (D * 10 ^ x.toNat) 0
+        else Flt.div (.fin d.neg D 0) (.fin false (10 ^ (-x).toNat) 0)
+      match f with
+      | .inf _ => .ok .null
+      | f => .ok (.flt f)
+  | none =>
+    if s.any (fun c => c = 105 || c = 73 || c = 110 || c = 78 || c = 120 || c = 88 || c = 112 || c = 80 || c = 95) then
+      .error .unmodelled
+    else .ok .null
 
 /-- asm/float.go -/
 def sfFloat : ScalarFn :=
